@@ -70,7 +70,7 @@ def float_value(rng):
 def str_value(rng):
     return rng.choice(["mnist", "adam", "~/tensorflow_datasets", "a.b", "hello world", "", "x", "v1.0", "path/to/file",
                        "it's", 'say "hi"', "5", "True", "None", "a, b", "(paren)", "[1]", "relu", "mean_squared_error",
-                       "a.", ".hidden", "with.dots.inside", "UPPER", "defaults to x", "trailing ", " leading"])
+                       "a.", ".hidden", "with.dots.inside", "UPPER", "defaults to x", "trailing ", " leading", "call(x).", "f(a, b)"])
 
 
 def code_value(rng):
